@@ -1860,9 +1860,11 @@ class ArmV6:
 
     def execute_instruction(self, opcode):
         self.registers.changed_registers = [False] * 16
+        self.registers.it_restored = False
         self.executed_opcode = opcode
         if self.in_it_block():
             opcode.execute(self)
-            self.registers.it_advance()
+            if not self.registers.it_restored:
+                self.registers.it_advance()
         else:
             opcode.execute(self)
